@@ -4,6 +4,7 @@ mod run;
 mod c05;
 mod c13;
 mod c15;
+mod c16;
 mod c18;
 
 fn main() {
@@ -19,6 +20,7 @@ fn main() {
         "c05" => c05::main(&rest),
         "c13" => c13::main(&rest),
         "c15" => c15::main(&rest),
+        "c16" => c16::main(&rest),
         "c18" => c18::main(&rest),
         "c18one" => {
             let spec = rest.first().cloned().unwrap_or_default();
